@@ -1011,6 +1011,18 @@ def _sp_kernel(rec, rng, fam):
         if off.size:
             rec.require("spline_untouched_columns", np.array_equal(dr[:, off], pred[:, off]),
                         mechanism=mech + ":writes-unmapped-column")
+        # the mapped evaluator is what a user stores and runs later: its dict form is the same function
+        try:
+            ev2 = type(ev).from_dict(ev.to_dict())
+            r2, dr2 = pre.copy(), pred.copy()
+            ev2(XN, r2, dr2)
+            rec.check("spline_stored_form_same_function",
+                      max(_err(r2, r, max(fs, float(np.max(np.abs(r))))), _err(dr2, dr, max(ds, float(np.max(np.abs(dr)))))),
+                      1e-12, mechanism=mech + ":stored-form",
+                      detail={"kernel": info["label"], "ind_sets": [list(map(int, s)) for s in ev.ind_sets]})
+        except Exception as e:  # noqa: BLE001
+            rec.require("spline_stored_form_same_function", False, mechanism=mech + ":stored-form",
+                        detail={"exc": repr(e)[:300]})
         f1, d1 = ev(XF)
         f2, d2 = ev(XI)
         errs[dn] = (_err(f1, fF, fs), _err(d1, dF, ds), _err(f2, fI, fs), _err(d2, dI, ds))
